@@ -507,15 +507,20 @@ impl<R: Read + Seek> Seek for CompressionLayerReader<'_, R> {
                         let end_pos = self.sizes_info.as_ref().unwrap().max_uncompressed_pos();
                         let distance_from_end = -pos;
                         if distance_from_end >= 0 {
-                            self.seek(SeekFrom::Start(
-                                end_pos
-                                    - u64::try_from(distance_from_end).map_err(|_| {
-                                        io::Error::new(
-                                            io::ErrorKind::InvalidInput,
-                                            "Invalid distance_from_end value",
-                                        )
-                                    })?,
-                            ))
+                            let distance = u64::try_from(distance_from_end).map_err(|_| {
+                                io::Error::new(
+                                    io::ErrorKind::InvalidInput,
+                                    "Invalid distance_from_end value",
+                                )
+                            })?;
+                            self.seek(SeekFrom::Start(end_pos.checked_sub(distance).ok_or_else(
+                                || {
+                                    io::Error::new(
+                                        io::ErrorKind::InvalidInput,
+                                        "Seek before the start of the stream",
+                                    )
+                                },
+                            )?))
                         } else {
                             Err(io::Error::new(
                                 io::ErrorKind::InvalidInput,
